@@ -1,3 +1,60 @@
+/-
+C06 — Headers and data do not depend on how entry bodies are consumed.
+
+This file holds the theorems about the *prediction* used by the `cons` engine
+(`LA.ReadObs.predictCons`: what the record of a run with an arbitrary per-entry
+consumption vector must be, given the all-read reference run).  The model of
+`archive_read_data` over zero-copy blocks and its theorems live in
+LA/Props/C06 as well once `LA.Model.ReadData` is present (see DESIGN.md).
+-/
 import LA.Model.ReadObs
 namespace LA.C06
+open LA.ReadObs
+
+theorem predictEnt_header (e : Ent) (c : String) :
+    (predictEnt e c).hst = e.hst ∧ (predictEnt e c).md = e.md ∧ (predictEnt e c).bare = e.bare := by
+  unfold predictEnt
+  split
+  · exact ⟨rfl, rfl, rfl⟩
+  · split
+    · exact ⟨rfl, rfl, rfl⟩
+    · split
+      · exact ⟨rfl, rfl, rfl⟩
+      · split
+        · exact ⟨rfl, rfl, rfl⟩
+        · split <;> exact ⟨rfl, rfl, rfl⟩
+
+/-- The prediction keeps the number and order of entries, every header status and
+every metadata digest, and the archive-level statuses, for every consumption
+vector: only body fields of entries that are not read in full may change. -/
+theorem predictCons_headers (r : Rec) (cons : List String) :
+    (predictCons r cons).ents.length = r.ents.length ∧
+    (predictCons r cons).ents.map (fun e => (e.hst, e.md)) = r.ents.map (fun e => (e.hst, e.md)) ∧
+    (predictCons r cons).openSt = r.openSt ∧ (predictCons r cons).final = r.final ∧
+    (predictCons r cons).tail = r.tail := by
+  refine ⟨by simp [predictCons, zipIdx], ?_, rfl, rfl, rfl⟩
+  simp only [predictCons, zipIdx, List.map_map]
+  have : ∀ (l : List Ent) (k : Nat),
+      (l.zip (List.range' k l.length)).map ((fun e => (e.hst, e.md)) ∘ fun x => predictEnt x.1 (cycle cons x.2)) =
+      l.map (fun e => (e.hst, e.md)) := by
+    intro l
+    induction l with
+    | nil => intro k; simp
+    | cons a t ih =>
+      intro k
+      simp only [List.length_cons, List.range'_succ, List.zip_cons_cons, List.map_cons, Function.comp]
+      rw [(predictEnt_header a _).1, (predictEnt_header a _).2.1]
+      congr 1
+      exact ih (k + 1)
+  have h := this r.ents 0
+  rw [List.range_eq_range']
+  exact h
+
+/-- Entries read in full (by `read_data` with any buffer sizes or by
+`read_data_block`) are predicted to be exactly the reference entries. -/
+theorem predictEnt_full (e : Ent) (c : String) (h : c = "A" ∨ c = "a" ∨ c = "B") :
+    predictEnt e c = e := by
+  unfold predictEnt
+  rcases h with rfl | rfl | rfl <;> simp
+
 end LA.C06
